@@ -427,6 +427,9 @@ def run_faults(ctx: C.Ctx) -> None:
 def replay(ctx: C.Ctx, doc: Dict[str, Any], from_corpus: bool = False) -> None:
     inp = doc.get("input", {})
     if "op" in inp:
+        from harness.props import c13_codec as K
+        if K.replay_codec(ctx, inp):
+            return
         from harness.props import c13_model as M
         M.replay_op(ctx, inp)
         return
@@ -456,6 +459,9 @@ def run_corpus(ctx: C.Ctx) -> None:
             doc = json.load(fp)
         inp = doc.get("input", {})
         if "op" in inp:
+            from harness.props import c13_codec as K
+            if K.replay_codec(ctx, inp):
+                continue
             from harness.props import c13_model as M
             M.replay_op(ctx, inp)
             continue
@@ -490,4 +496,6 @@ def run(ctx: C.Ctx) -> None:
         M = None
     if M is not None:
         M.run_model(ctx)
+    from harness.props import c13_codec as K
+    K.run_codec(ctx)
     run_faults(ctx)
